@@ -573,6 +573,7 @@ func shortCase(c *Ctx, durTicks int64) *hcase {
 
 func run(c *Ctx) {
 	probeNoHls(c)
+	stressPlaylist(c)
 	var cases []*hcase
 	for _, l := range c.CorpusLines() {
 		if k := parseCase(l); k != nil {
